@@ -57,7 +57,7 @@ def gen_case(rng, pkgbase):
     for i, a in enumerate(abstract):
         items.append({"kind": rng.choice(["multisection", "multisection", "section"]),
                       "name": rng.choice(["*", "*", "+"]), "attribute": "a%d" % (i + 1),
-                      "required": False, "handler": None, "type": gen.mixcase(rng, a)})
+                      "required": rng.random() < 0.2, "handler": None, "type": gen.mixcase(rng, a)})
     if rng.random() < 0.35:
         # a specifically named slot of an abstract type
         items.insert(rng.randrange(len(items) + 1),
@@ -275,7 +275,7 @@ def run_shard(spec):
     counters = collections.Counter()
     for i in range(spec["lo"], spec["hi"]):
         rng = loadcheck.case_rng(spec["seed"] + 1212, i)
-        pkgbase = "zcvq%d_%d_" % (spec["seed"] % 1000, i)
+        pkgbase = "zcvq%d_%d_" % (spec["seed"] % 1000, i % 5 if i % 2 else i)
         ast, packages = gen_case(rng, pkgbase)
         texts = [gen_text(rng, ast, packages) for _ in range(rng.randint(1, 4))]
         case = {"schema": ast, "packages": packages, "texts": texts}
